@@ -757,6 +757,8 @@ class ExcelCompiler:
                 self.cell_map[str(address)] = self.Cell(
                     address, formula=REF_FORMAT.format(excel_data.address),
                     excel=self.excel)
+                # the reference depends on the range it resolves to
+                add_node_to_graph(self.cell_map[str(address)])
 
             self.range_todos.append(str(excel_data.address))
             new_nodes = build_range(excel_data)
